@@ -234,11 +234,26 @@ func (x *Exec) callStatic(s *State, site ssa.Instruction, cc *ssa.CallCommon, fn
 		for _, a := range args {
 			x.havocReachable(s, a, x.siteTag(site), map[int]bool{}, 0)
 		}
-		k(s, x.freshResult(s, site, fn.Signature.Results()))
+		r := x.freshResult(s, site, fn.Signature.Results())
+		// library constructors (New…) with a single pointer result and no error
+		// do not return nil (convention of the standard library and x/crypto)
+		if strings.HasPrefix(fn.Name(), "New") && fn.Signature.Results().Len() == 1 {
+			if pv, ok := r.(*PtrV); ok {
+				s.assume(Not(pv.Nil))
+				x.E.assumeNote("library constructor " + name + " returns a non-nil pointer")
+			}
+		}
+		k(s, r)
 		return
 	}
 	c := x.P.contractFor(fn)
 	if c != nil && c.Inline {
+		x.inline(s, site, fn, binds, args, k)
+		return
+	}
+	if c == nil && os.Getenv("GOVC_NO_AUTOINLINE") == "" && x.autoInlinable(s, fn) {
+		// a small helper without a contract is taken by its body rather than
+		// havoc'd (extracting a helper is a common harmless edit)
 		x.inline(s, site, fn, binds, args, k)
 		return
 	}
@@ -871,4 +886,31 @@ func mentionsBind(c *Contract, e ast.Expr) bool {
 		return !hit
 	})
 	return hit
+}
+
+// autoInlinable: a repository function without contract that is small,
+// loop-free, straight (no go / select / defer) and not already on the stack.
+func (x *Exec) autoInlinable(s *State, fn *ssa.Function) bool {
+	if fn.Blocks == nil || len(s.frames) >= 3 || fn.Synthetic != "" {
+		return false
+	}
+	for _, fr := range s.frames {
+		if fr.fn == fn {
+			return false
+		}
+	}
+	if len(x.loopsOf(fn)) > 0 {
+		return false
+	}
+	n := 0
+	for _, b := range fn.Blocks {
+		for _, in := range b.Instrs {
+			n++
+			switch in.(type) {
+			case *ssa.Go, *ssa.Select, *ssa.Defer, *ssa.MakeClosure, *ssa.Panic:
+				return false
+			}
+		}
+	}
+	return n <= 60 && len(fn.Blocks) <= 8
 }
